@@ -3,9 +3,10 @@
 # against another checkout of the repository, without touching /repo or /verif's work directory.
 # Every invocation uses its own copy (removed afterwards) so that concurrent runs do not collide.
 WT="$1"; PID="$2"; TIER="${3:-quick}"
+SRC="${VERIF_SRC:-/verif}"
 COPY=$(mktemp -d /tmp/vmut.XXXXXX)
 # only the build products that save time are copied from work/ (harness binary, OCaml drivers)
-rsync -a --exclude .git --include 'work/' --include 'work/bin/***' --include 'work/ocaml/***' --exclude 'work/*' --exclude replays --exclude evidence /verif/ $COPY/
+rsync -a --exclude .git --include 'work/' --include 'work/bin/***' --include 'work/ocaml/***' --exclude 'work/*' --exclude replays --exclude evidence $SRC/ $COPY/
 cd $COPY && VERIF_REPO="$WT" ./run.sh "$PID" "$TIER"
 RC=$?
 mkdir -p /tmp/vmut-replays && cp -f $COPY/replays/* /tmp/vmut-replays/ 2>/dev/null
